@@ -164,7 +164,8 @@ Theorem consistent_unique (ts : ttasks) (L : list path) (st sa sb : node) (srcs 
   (forall u v, In u L -> In v L -> u <> v -> pedge ts u v -> ~ clos (pedge ts) v u) ->
   (forall a, In a L -> exists T, aget path_eqb a ts = Some T) ->
   (forall a, In a L -> cons_at ts sa a) -> (forall a, In a L -> cons_at ts sb a) ->
-  (forall q, (forall a, In a L -> overlap a q = false) -> nget sa q = nget sb q) ->
+  (forall a T e q, In a L -> aget path_eqb a ts = Some T -> t_act T = AExpr e -> In q (reads e) ->
+                   (forall c, In c L -> overlap c q = false) -> nget sa q = nget sb q) ->
   (forall a T e q b, In a L -> aget path_eqb a ts = Some T -> t_act T = AExpr e -> In q (reads e) ->
                      In b L -> overlap b q = true -> is_prefix b q = true) ->
   forall a, In a L -> nget sa a = nget sb a.
@@ -193,7 +194,7 @@ Proof.
           - rewrite HL in Hb. eapply before_in_done; eauto. now rewrite <- HL.
           - exfalso. eapply (Hacy c b); eauto. }
         rewrite !nget_app, (Hd c Hcd). reflexivity.
-      + apply Hoff. intros c Hc.
+      + apply (Hoff b Tb eb q HbL Eb Hact Hq). intros c Hc.
         destruct (overlap c q) eqn:Eo; [|reflexivity].
         assert (existsb (fun c0 => overlap c0 q) L = true) by (apply existsb_exists; exists c; auto). congruence. }
   apply (Hgen L []); auto. intros a [].
